@@ -10,63 +10,27 @@
 #include <string>
 #include <vector>
 
-// ---------------------------------------------------------------- references
-static const char HEXU[] = "0123456789ABCDEF";
-static std::string ref_hex(const uint8_t *d, size_t n)
+#include "c18_refs.h"
+#include "early_fork.h"
+
+// wrappers compiled in translation units whose FIRST include is <igris/util/hexascii.h> (first_c.c, first_cxx.cpp)
+extern "C"
 {
-    std::string s;
-    for (size_t i = 0; i < n; i++)
-    {
-        s += HEXU[d[i] / 16];
-        s += HEXU[d[i] % 16];
-    }
-    return s;
+#define FO_DECL(p)                                                                                          \
+    char p##half2hex(uint8_t); uint8_t p##hex2half(char); uint8_t p##hex2byte(char, char);                  \
+    void p##uint8_to_hex(char *, uint8_t); void p##uint16_to_hex(char *, uint16_t);                         \
+    void p##uint32_to_hex(char *, uint32_t); void p##uint64_to_hex(char *, uint64_t);                       \
+    uint8_t p##hex_to_uint8(const char *); uint16_t p##hex_to_uint16(const char *);                         \
+    uint32_t p##hex_to_uint32(const char *); uint64_t p##hex_to_uint64(const char *);
+    FO_DECL(fc_)
+    FO_DECL(fx_)
 }
-// value -> fixed-width big-endian (most significant digit first) upper-case hex, by division
-static std::string ref_hex_value(uint64_t v, int digits)
-{
-    std::string s(digits, '0');
-    for (int i = digits - 1; i >= 0; i--, v /= 16)
-        s[i] = HEXU[v % 16];
-    return s;
-}
-// RFC 4648 section 4 / 5, bit-stream formulation (6 bits at a time out of a bit accumulator)
-static std::string ref_b64(const uint8_t *d, size_t n, bool url)
-{
-    static const char STD[] = "ABCDEFGHIJKLMNOPQRSTUVWXYZabcdefghijklmnopqrstuvwxyz0123456789+/";
-    static const char URL[] = "ABCDEFGHIJKLMNOPQRSTUVWXYZabcdefghijklmnopqrstuvwxyz0123456789-_";
-    const char *A = url ? URL : STD;
-    std::string s;
-    uint32_t acc = 0;
-    int bits = 0;
-    for (size_t i = 0; i < n; i++)
-    {
-        acc = (acc << 8) | d[i];
-        bits += 8;
-        while (bits >= 6)
-        {
-            bits -= 6;
-            s += A[(acc >> bits) & 63];
-        }
-    }
-    if (bits)
-        s += A[(acc << (6 - bits)) & 63];
-    while (s.size() % 4)
-        s += '=';
-    return s;
-}
-static bool in_alphabet(const std::string &s, bool url)
-{
-    for (char ch : s)
-    {
-        unsigned char c = (unsigned char)ch;
-        bool ok = (c >= 'A' && c <= 'Z') || (c >= 'a' && c <= 'z') || (c >= '0' && c <= '9') || c == '=' ||
-                  (url ? (c == '-' || c == '_') : (c == '+' || c == '/'));
-        if (!ok)
-            return false;
-    }
-    return true;
-}
+// REDUCED: second build with -funsigned-char runs a fraction of the random workload
+#ifdef C18_REDUCED
+static const uint64_t REDUCE = 8;
+#else
+static const uint64_t REDUCE = 1;
+#endif
 
 // ---------------------------------------------------------------- one byte string through every codec
 static void check_bytes(const uint8_t *msg, size_t n, unsigned misalign)
@@ -203,7 +167,7 @@ VF_SUITE(shortstrings, enum_count, enum_run)
 
 // (b) random byte strings up to 300 bytes
 static const uint64_t RAND_BATCH = 50;
-static uint64_t rand_count() { return (vf::thorough() ? 5000000ull : 100000ull) / RAND_BATCH; }
+static uint64_t rand_count() { return (vf::thorough() ? 5000000ull : 100000ull) / RAND_BATCH / REDUCE; }
 static void rand_run(uint64_t c)
 {
     vf::Rng r(vf::seed(), 0xC18, c);
@@ -238,7 +202,7 @@ template <class T> static T biased(vf::Rng &r)
     }
     return (T)v;
 }
-template <class T, class ENC, class DEC> static void fixed_one(T v, const char *name, ENC enc, DEC dec, unsigned mis)
+template <class T, class ENC, class DEC> static void fixed_one(T v, const char *name, ENC enc, DEC dec, unsigned mis, const char *variant = "")
 {
     const int D = sizeof(T) * 2;
     char key[96];
@@ -252,14 +216,14 @@ template <class T, class ENC, class DEC> static void fixed_one(T v, const char *
         enc(out.c(), v);
         if (memcmp(out.p, ref.data(), D) != 0)
         {
-            snprintf(key, sizeof key, "%s_to_hex:!=reference", name);
+            snprintf(key, sizeof key, "%s_to_hex:!=reference%s", name, variant);
             vf::fail(key, "value=%llx got=%s ref=%s", (unsigned long long)v, vf::esc(out.p, D).c_str(), ref.c_str());
         }
         vf::Exact in(ref.data(), D, mis, mirror);
         T back = dec(in.cc());
         if (back != v)
         {
-            snprintf(key, sizeof key, "hex_to_%s:roundtrip", name);
+            snprintf(key, sizeof key, "hex_to_%s:roundtrip%s", name, variant);
             vf::fail(key, "value=%llx text=%s decoded=%llx", (unsigned long long)v, ref.c_str(), (unsigned long long)back);
         }
     }
@@ -267,22 +231,34 @@ template <class T, class ENC, class DEC> static void fixed_one(T v, const char *
 static void fixed8(uint8_t v, unsigned m)
 {
     fixed_one<uint8_t>(v, "uint8", [](char *h, uint8_t x) { uint8_to_hex(h, x); }, [](const char *h) { return hex_to_uint8(h); }, m);
+    fixed_one<uint8_t>(v, "uint8", fc_uint8_to_hex, fc_hex_to_uint8, m, ":first-include-c");
+    fixed_one<uint8_t>(v, "uint8", fx_uint8_to_hex, fx_hex_to_uint8, m, ":first-include-c++");
     VF_OK("uint8_to_hex == reference and hex_to_uint8 inverts it");
+    VF_OK("fixed-width helpers give the same text/value in TUs that include the igris header first (C and C++)");
 }
 static void fixed16(uint16_t v, unsigned m)
 {
     fixed_one<uint16_t>(v, "uint16", [](char *h, uint16_t x) { uint16_to_hex(h, x); }, [](const char *h) { return hex_to_uint16(h); }, m);
+    fixed_one<uint16_t>(v, "uint16", fc_uint16_to_hex, fc_hex_to_uint16, m, ":first-include-c");
+    fixed_one<uint16_t>(v, "uint16", fx_uint16_to_hex, fx_hex_to_uint16, m, ":first-include-c++");
     VF_OK("uint16_to_hex == reference and hex_to_uint16 inverts it");
+    VF_OK("fixed-width helpers give the same text/value in TUs that include the igris header first (C and C++)");
 }
 static void fixed32(uint32_t v, unsigned m)
 {
     fixed_one<uint32_t>(v, "uint32", [](char *h, uint32_t x) { uint32_to_hex(h, x); }, [](const char *h) { return hex_to_uint32(h); }, m);
+    fixed_one<uint32_t>(v, "uint32", fc_uint32_to_hex, fc_hex_to_uint32, m, ":first-include-c");
+    fixed_one<uint32_t>(v, "uint32", fx_uint32_to_hex, fx_hex_to_uint32, m, ":first-include-c++");
     VF_OK("uint32_to_hex == reference and hex_to_uint32 inverts it");
+    VF_OK("fixed-width helpers give the same text/value in TUs that include the igris header first (C and C++)");
 }
 static void fixed64(uint64_t v, unsigned m)
 {
     fixed_one<uint64_t>(v, "uint64", [](char *h, uint64_t x) { uint64_to_hex(h, x); }, [](const char *h) { return hex_to_uint64(h); }, m);
+    fixed_one<uint64_t>(v, "uint64", fc_uint64_to_hex, fc_hex_to_uint64, m, ":first-include-c");
+    fixed_one<uint64_t>(v, "uint64", fx_uint64_to_hex, fx_hex_to_uint64, m, ":first-include-c++");
     VF_OK("uint64_to_hex == reference and hex_to_uint64 inverts it");
+    VF_OK("fixed-width helpers give the same text/value in TUs that include the igris header first (C and C++)");
 }
 
 // all 8- and 16-bit values: case c covers 16-bit values [c*256, c*256+255]; case 0 also the nibble helpers
@@ -303,6 +279,12 @@ static void small_run(uint64_t c)
         for (unsigned b = 0; b < 256; b++)
             if (hex2byte(HEXU[b / 16], HEXU[b % 16]) != b)
                 vf::fail("hex2byte:!=reference", "byte=%02x got %02x", b, hex2byte(HEXU[b / 16], HEXU[b % 16]));
+        for (unsigned n = 0; n < 16; n++)
+            if (fc_half2hex((uint8_t)n) != HEXU[n] || fx_half2hex((uint8_t)n) != HEXU[n] || fc_hex2half(HEXU[n]) != n || fx_hex2half(HEXU[n]) != n)
+                vf::fail("half2hex/hex2half:first-include", "n=%u", n);
+        for (unsigned b = 0; b < 256; b++)
+            if (fc_hex2byte(HEXU[b / 16], HEXU[b % 16]) != b || fx_hex2byte(HEXU[b / 16], HEXU[b % 16]) != b)
+                vf::fail("hex2byte:first-include", "byte=%02x", b);
         VF_OK("half2hex upper-case, hex2half/hex2byte invert it (all nibbles, all bytes)");
         vf::sample("fixed-width: all 256 uint8, all 65536 uint16 values, both buffer placements");
     }
@@ -314,7 +296,7 @@ static void small_run(uint64_t c)
 VF_SUITE(small_values, small_count, small_run)
 
 static const uint64_t WIDE_BATCH = 500;
-static uint64_t wide_count() { return (vf::thorough() ? 4000000ull : 200000ull) / WIDE_BATCH; }
+static uint64_t wide_count() { return (vf::thorough() ? 4000000ull : 200000ull) / WIDE_BATCH / REDUCE; }
 static void wide_run(uint64_t c)
 {
     vf::Rng r(vf::seed(), 0xC18F, c);
@@ -333,6 +315,97 @@ static void wide_run(uint64_t c)
 }
 VF_SUITE(wide_values, wide_count, wide_run)
 
+
+// (d) calls made during static initialisation. This object lives in a harness TU; harness objects are linked in front of
+//     the /repo objects, so its constructor runs before any initialiser inside the igris TUs. An entry point that
+//     depends on a table / object set up by a dynamic initialiser of its own TU returns garbage here.
+static const uint8_t EARLY_BYTES[11] = {0x00, 0x7F, 0x80, 0xFF, 'a', 0xFB, 0xFE, 0x10, 0x9A, 0xBC, 0x3E};
+struct EarlyData
+{
+    EarlyText b64[12], b64s[12], url[12], urls[12], dec[12], udec[12], hx_ptr[12], hx_str[12], hx_buf[12], chex[12], cdec[12], fixed[4];
+    uint64_t back[4];
+};
+static void early_calls(EarlyData &E)
+{
+    for (size_t n = 0; n <= 11; n++)
+    {
+        std::string in((const char *)EARLY_BYTES, n), t;
+        t = igris::base64_encode(EARLY_BYTES, n), E.b64[n].set(t.data(), t.size());
+        t = igris::base64_encode(in), E.b64s[n].set(t.data(), t.size());
+        t = igris::base64url_encode(EARLY_BYTES, n), E.url[n].set(t.data(), t.size());
+        t = igris::base64url_encode(in), E.urls[n].set(t.data(), t.size());
+        t = igris::base64_decode(ref_b64(EARLY_BYTES, n, false)), E.dec[n].set(t.data(), t.size());
+        t = igris::base64url_decode(ref_b64(EARLY_BYTES, n, true)), E.udec[n].set(t.data(), t.size());
+        t = igris::hexascii_encode(EARLY_BYTES, n), E.hx_ptr[n].set(t.data(), t.size());
+        t = igris::hexascii_encode(in), E.hx_str[n].set(t.data(), t.size());
+        t = igris::hexascii_encode(igris::buffer((const void *)EARLY_BYTES, n)), E.hx_buf[n].set(t.data(), t.size());
+        char chex[24];
+        uint8_t cdec[12];
+        memset(chex, 0, sizeof chex);
+        hexascii_encode(EARLY_BYTES, (int)n, chex);
+        E.chex[n].set(chex, 2 * n);
+        memset(cdec, 0x55, sizeof cdec);
+        hexascii_decode(ref_hex(EARLY_BYTES, n).data(), (int)(2 * n), cdec);
+        E.cdec[n].set((const char *)cdec, n);
+    }
+    char f[17];
+    uint8_to_hex(f, 0xA5), E.fixed[0].set(f, 2);
+    uint16_to_hex(f, 0xB00F), E.fixed[1].set(f, 4);
+    uint32_to_hex(f, 0x89ABCDEFu), E.fixed[2].set(f, 8);
+    uint64_to_hex(f, 0x0123456789ABCDEFull), E.fixed[3].set(f, 16);
+    E.back[0] = hex_to_uint8("A5");
+    E.back[1] = hex_to_uint16("B00F");
+    E.back[2] = hex_to_uint32("89ABCDEF");
+    E.back[3] = hex_to_uint64("0123456789ABCDEF");
+}
+static EarlyRun<EarlyData> g_early_run(early_calls);
+static std::string S(const EarlyText &t) { return std::string(t.d, t.len < sizeof t.d ? t.len : sizeof t.d); }
+static void early_cmp(const char *routine, size_t n, const std::string &got, const std::string &want)
+{
+    if (got != want)
+    {
+        char key[96];
+        snprintf(key, sizeof key, "static-init:%s:!=reference", routine);
+        vf::fail(key, "called from a static constructor of an earlier-linked TU with %zu bytes: got (len %zu) \"%s\" want \"%s\"", n, got.size(),
+                 vf::esc(got.data(), got.size()).c_str(), vf::esc(want.data(), want.size()).c_str());
+    }
+}
+static uint64_t early_count() { return 1; }
+static void early_run(uint64_t)
+{
+    vf::cls("static-init");
+    if (g_early_run.hung)
+        vf::fail("static-init:hang", "a call made during static initialisation did not return within 5 s of CPU time");
+    if (g_early_run.died)
+        vf::fail("static-init:crash", "the child that calls every entry point during static initialisation died (sanitizer report in stderr.txt)");
+    const EarlyData &g_early = *g_early_run.data;
+    for (size_t n = 0; n <= 11; n++)
+    {
+        std::string raw((const char *)EARLY_BYTES, n), hx = ref_hex(EARLY_BYTES, n);
+        early_cmp("base64_encode", n, S(g_early.b64[n]), ref_b64(EARLY_BYTES, n, false));
+        early_cmp("base64_encode(string)", n, S(g_early.b64s[n]), ref_b64(EARLY_BYTES, n, false));
+        early_cmp("base64url_encode", n, S(g_early.url[n]), ref_b64(EARLY_BYTES, n, true));
+        early_cmp("base64url_encode(string)", n, S(g_early.urls[n]), ref_b64(EARLY_BYTES, n, true));
+        early_cmp("base64_decode", n, S(g_early.dec[n]), raw);
+        early_cmp("base64url_decode", n, S(g_early.udec[n]), raw);
+        early_cmp("hexascii_encode(ptr,size)", n, S(g_early.hx_ptr[n]), hx);
+        early_cmp("hexascii_encode(string)", n, S(g_early.hx_str[n]), hx);
+        early_cmp("hexascii_encode(buffer)", n, S(g_early.hx_buf[n]), hx);
+        early_cmp("hexascii_encode(C)", n, S(g_early.chex[n]), hx);
+        early_cmp("hexascii_decode(C)", n, S(g_early.cdec[n]), raw);
+    }
+    static const uint64_t V[4] = {0xA5, 0xB00F, 0x89ABCDEFu, 0x0123456789ABCDEFull};
+    for (int i = 0; i < 4; i++)
+    {
+        early_cmp("uintN_to_hex", 1u << i, S(g_early.fixed[i]), ref_hex_value(V[i], 2 << i));
+        if (g_early.back[i] != V[i])
+            vf::fail("static-init:hex_to_uintN:!=reference", "width %d got %llx", 8 << i, (unsigned long long)g_early.back[i]);
+    }
+    VF_OK("every entry point called during static initialisation of an earlier-linked TU == reference");
+    vf::count_bulk(1, 1);
+}
+VF_SUITE(static_init, early_count, early_run)
+
 extern "C" void vf_setup()
 {
     for (const char *c : {"hexascii_encode == upper-case hex reference, 2n chars", "hexascii_decode(hexascii_encode(x)) == x",
@@ -341,6 +414,8 @@ extern "C" void vf_setup()
                           "base64 encode(std::string) == reference", "base64_decode(base64_encode(x)) == x",
                           "base64url_decode(base64url_encode(x)) == x",
                           "half2hex upper-case, hex2half/hex2byte invert it (all nibbles, all bytes)",
+                          "fixed-width helpers give the same text/value in TUs that include the igris header first (C and C++)",
+                          "every entry point called during static initialisation of an earlier-linked TU == reference",
                           "uint8_to_hex == reference and hex_to_uint8 inverts it", "uint16_to_hex == reference and hex_to_uint16 inverts it",
                           "uint32_to_hex == reference and hex_to_uint32 inverts it", "uint64_to_hex == reference and hex_to_uint64 inverts it"})
         vf::require(c);
